@@ -334,6 +334,11 @@ outer:
 
 	// No better solution than allocate at the end of the table.
 	base = a.size - min
+	for a.usedBase.Get(a.delta + base) {
+		// Two lines must never share a base, or one of them starts seeing the entries of the other.
+		base++
+	}
+	a.taken.Grow(base + max + 1)
 	return
 }
 
